@@ -1,3 +1,5 @@
+pub mod c02;
+pub mod c04;
 pub mod c05;
 pub mod c06;
 pub mod c07;
@@ -14,6 +16,7 @@ pub mod c18;
 pub mod c19;
 pub mod c20;
 pub mod maint;
+pub mod searchworld;
 pub mod single;
 pub mod table_common;
 
@@ -21,6 +24,8 @@ use crate::engine::PropertySpec;
 
 pub fn spec(id: &str) -> Option<PropertySpec> {
     Some(match id {
+        "C02" => c02::spec(),
+        "C04" => c04::spec(),
         "C05" => c05::spec(),
         "C06" => c06::spec(),
         "C07" => c07::spec(),
